@@ -411,6 +411,25 @@ def run_batch(ctx, p):
         compare("superset", np.arange(m), np.arange(m), B)
     except (SolverRaised, Skip):
         ctx.count("superset_not_applicable:" + name)
+    # every point alone (series solvers, root finders with warm starts: the one-point request is the extreme subset)
+    if e["cost"] < 0.2 and ent not in ("Mader", "Sedov") and e["minpts"] <= 1:
+        worst, wf, wi = 0.0, None, None
+        for j in list(range(min(m, 5))):
+            try:
+                Bj = ctx.call(s, sub(e, pts, np.array([j])), t)
+            except SolverRaised:
+                ctx.count("single_point_request_raised:" + name)
+                continue
+            for f in fields:
+                x, y = float(np.asarray(A[f], float)[j]), float(np.asarray(Bj[f], float)[0])
+                if x == y or (math.isnan(x) and math.isnan(y)):
+                    continue
+                sc = max(abs(x), abs(y))
+                dd = abs(x - y) / sc if sc > 0 and math.isfinite(sc) else float("inf")
+                if not dd <= worst:
+                    worst, wf, wi = (dd if dd == dd else float("inf")), f, j
+        ctx.observe("batch", name, worst <= 1e-10, branch="every point alone", measure=worst, tol=1e-10, detail=dict(field=wf, index=wi, t=t, n=m,
+                    params={k: v for k, v in d["passed"].items() if isinstance(v, (int, float, str))}))
     if ent == "Sedov":
         # the grid changes with max(r): values may move only within the documented resolution (max(r)/3000 x slope)
         r2 = float(s.r2)
@@ -543,6 +562,68 @@ def run_shared(ctx, p):
                 detail=dict(field=wf, gamma=g, rho0=p["rho0"], u0=p["u0"], geometries=[ga + 1, gb + 1], t=t, alone=S.values(ref).get("density"), in_company=S.values(A).get("density")))
 
 
+# ---- one solver class, two equations of state: the general Riemann solver with the ideal-gas and the JWL closure -----------------
+def gen_closure(rng, i, tier):
+    from .. import riemann_common as RC
+    nm = sorted(RC.JWL_SETS)[i % len(RC.JWL_SETS)]
+    st = dict(RC.JWL_SETS[nm])
+    if i >= 2 * len(RC.JWL_SETS):
+        for k in ("rl", "pl", "rr", "pr"):
+            st[k] *= uni(rng, 0.85, 1.2)
+    return dict(set=nm, st=st, order=["ideal gas first, then JWL", "JWL first, then ideal gas"][(i // len(RC.JWL_SETS)) % 2], t=uni(rng, 5, 15))
+
+
+def run_closure(ctx, p):
+    st = p["st"]
+    base = {k: float(st[k]) for k in ("rl", "ul", "pl", "gl", "rr", "ur", "pr", "gr")}
+    base.update(xmin=0.0, xd0=50.0, xmax=100.0, t=float(p["t"]))
+    jwl = dict(base, problem="JWL", **{k: float(st[k]) for k in ("A", "B", "R1", "R2", "r0", "e0")})
+    specs = dict(ideal=dict(kind="cat", entry="GenEOS_Solver", cls="riemann.ep_riemann:GenEOS_Solver", kwargs=base, geom=None),
+                 JWL=dict(kind="cat", entry="GenEOS_Solver", cls="riemann.ep_riemann:GenEOS_Solver", kwargs=jwl, geom=None))
+    sig = dict(points=np.linspace(5.0, 95.0, 19).tolist(), t=float(p["t"]))
+    first, second = ("ideal", "JWL") if p["order"].startswith("ideal") else ("JWL", "ideal")
+    try:
+        S.call(S.build(specs[first]), sig)
+        B = S.call(S.build(specs[second]), sig)
+    except Exception as ex:
+        ctx.count("closure_case_raised:" + type(ex).__name__)
+        raise Skip("solver raised")
+    ref = fresh(specs[second], sig)
+    if not ref.get("ok"):
+        ctx.count("fresh_failed:" + str(ref.get("error"))[:60])
+        raise Skip("fresh interpreter failed")
+    w, wf = worst_diff(ref["values"], S.values(B))
+    ctx.observe("hist.fresh", "GenEOS_Solver", ref["digest"] == S.digest(B), branch="same states, other closure solved before: " + p["order"], measure=w,
+                detail=dict(field=wf, set=p["set"], t=p["t"]), cell=(p["set"], p["order"], round(p["t"], 6)))
+
+
+# ---- series solvers at the nodes of their own modes: rational fractions of the length, early times ---------------------------------
+def gen_nodes(rng, i, tier):
+    ent = ["Rod1D", "PlanarSandwich", "PlanarSandwichHot", "PlanarSandwichHalf"][i % 4]
+    kw = C.CAT[ent]["gen"](rng, None)
+    return dict(entry=ent, kw=kw, tf=logu(rng, 1e-4, 5e-2))
+
+
+def run_nodes(ctx, p):
+    ent, kw = p["entry"], p["kw"]
+    cls = C.load(C.CAT[ent]["path"])
+    s = ctx.make(cls, **kw)
+    L, kap = float(kw["L"]), float(kw["kappa"])
+    fr = np.array([1 / 2, 1 / 3, 2 / 3, 1 / 4, 3 / 4, 0.4, 0.8, 1 / 5, 1 / 6, 1 / 8])
+    t = p["tf"] * L * L / kap
+    A = np.asarray(ctx.call(s, fr * L, t)["temperature"], float)
+    worst, wj = 0.0, None
+    sc = max(float(np.max(np.abs(A))), 1e-300)
+    for j in range(len(fr)):
+        for req in (np.array([fr[j] * L]), np.array([fr[j] * L, fr[(j + 3) % len(fr)] * L])):
+            v = float(np.asarray(ctx.call(s, req, t)["temperature"], float)[0])
+            dd = abs(v - A[j]) / sc
+            if not dd <= worst:
+                worst, wj = (dd if dd == dd else float("inf")), j
+    ctx.observe("batch", cls.__name__, worst <= 1e-10, branch="mode nodes (rational fractions of L) alone and in pairs, early time", measure=worst, tol=1e-10,
+                detail=dict(fraction=None if wj is None else float(fr[wj]), t=t, tf=p["tf"], params={k: v for k, v in kw.items() if isinstance(v, (int, float, str))}))
+
+
 def reach(tot, tier):
     out = []
     n = sum(st["evals"] for k, st in tot["stats"].items() if k.startswith("hist.fresh|"))
@@ -559,5 +640,7 @@ UNITS = [
     Unit("history", gen_hist, run_hist, quick=96, thorough=960, min_nontrivial=150),
     Unit("shared", gen_shared, run_shared, quick=24, thorough=240, min_nontrivial=16),
     Unit("reuse", gen_reuse, run_reuse, quick=60 * 4, thorough=60 * 40, min_nontrivial=120),
+    Unit("closure", gen_closure, run_closure, quick=4, thorough=24, min_nontrivial=3),
+    Unit("nodes", gen_nodes, run_nodes, quick=48, thorough=480, min_nontrivial=40),
     Unit("batch", gen_batch, run_batch, quick=len(BATCH) * 4, thorough=len(BATCH) * 40, min_nontrivial=200),
 ]
